@@ -119,6 +119,19 @@ theorem viterbi_code_value_eq_max (m : Hmm) (obs : List Nat) (hS : 0 < m.S) (hwf
       exact hub π hπ
   exact ⟨hv, by rw [hv, viterbi_value_eq_max m obs hS h]⟩
 
+/-- the code mirror against any other valid pair of tie-breaks (e.g. the harmless rewrite "first maximum wins" in
+`viterbi_traceback`, or a plain arg-max instead of the zero-aware comparator): possibly another path, same joint
+weight, same reported value -/
+theorem viterbi_code_tiebreak (sel : Sel) (hsel : IsArgmax sel) (pick : Pick) (hpick : IsPick pick) (m : Hmm)
+    (obs : List Nat) (hS : 0 < m.S) (hwf : m.WF) (h : obs ≠ []) :
+    joint m obs (viterbi m obs).1 = joint m obs (viterbiWith sel pick m obs).1 ∧
+    (viterbi m obs).2 = (viterbiWith sel pick m obs).2 := by
+  obtain ⟨hp, hj, hub⟩ := viterbi_spec m hS hwf obs h
+  obtain ⟨hp', hj', hub'⟩ := viterbiWith_spec hsel hpick m hS obs h
+  have h1 := hub' _ hp
+  have h2 := hub _ hp'
+  exact ⟨by omega, by omega⟩
+
 /-- **forward** = Σ over all state paths of the joint weight -/
 theorem forward_sum (m : Hmm) (obs : List Nat) (h : obs ≠ []) : forward m obs = likelihood m obs :=
   forward_eq_likelihood m obs h
@@ -200,7 +213,8 @@ example : (addEnd flipModel (col0 flipModel 0) (matFrom selZ flipModel (col0 fli
 def tieModel : Hmm :=
   { S := 2, init := fun _ => 1, trans := fun _ _ => 1, emit := fun _ _ => 1, fin := fun _ => 1, hasEnd := false }
 example : viterbiWith selZ argmaxLast tieModel [0, 0] = ([1, 1], 1) ∧
-    viterbiWith selLast argmaxFirst tieModel [0, 0] = ([1, 0], 1) := by decide
+    viterbiWith selLast argmaxFirst tieModel [0, 0] = ([1, 0], 1) ∧ viterbi tieModel [0, 0] = ([1, 1], 1) := by decide
+example : tieModel.WF := fun _ _ _ => rfl
 
 /-- hypothesis of `impossible_zero` is satisfiable: symbol 1 is never emitted -/
 def impModel : Hmm :=
